@@ -29,7 +29,7 @@ def kpi(rng, bare=False):
     if bare and rng.random() < 0.5:
         return leaf(n)
     ls = None
-    if n in S_KPI and rng.random() < 0.7:
+    if (n in S_KPI and rng.random() < 0.7) or rng.random() < 0.15:
         ls = rng.choice(["FOCUS.Kpi", "FOCUS.I32", "FOCUS.KEta"])
     return [n, None, ls, [leaf("K-"), leaf("pi+")]]
 
@@ -39,7 +39,7 @@ def pipi(rng, bare=False):
     if bare and rng.random() < 0.5:
         return leaf(n)
     ls = None
-    if n in S_PIPI and rng.random() < 0.8:
+    if (n in S_PIPI and rng.random() < 0.8) or rng.random() < 0.2:      # also on vectors: L of the lineshape is then not 0
         ls = rng.choice(["kMatrix.pole.0", "kMatrix.pole.1", "kMatrix.prod.0", "kMatrix.prod.1"])
     return [n, None, ls, [leaf("pi+"), leaf("pi-")]]
 
@@ -145,6 +145,93 @@ def rand_optfile(rng, with_pars=True, fcs=None, extra_families=False):
             out.append(["blank"])
         out.append(ln)
     return out
+
+
+def supported_top(rng, bare):
+    """a line of the mother with one of the spin structures of goofit.known_spinfactors; bare: list collecting resonances written bare"""
+    K, PIP, PIM = leaf("K-"), leaf("pi+"), leaf("pi-")
+
+    def two(names, lss, d):
+        n = rng.choice(names)
+        if rng.random() < 0.25:
+            bare.append(n)
+            return leaf(n)
+        return [n, None, rng.choice(lss), list(d)]
+    vk = lambda: two(V_KPI, [None, None, "FOCUS.Kpi"], [K, PIP])
+    vp = lambda: two(V_PIPI, [None, None, "kMatrix.pole.1", "kMatrix.prod.0"], [PIP, PIM])
+    sk = lambda: two(S_KPI, [None, "FOCUS.Kpi", "FOCUS.I32", "FOCUS.KEta"], [K, PIP])
+    sp = lambda: two(S_PIPI, [None, "kMatrix.pole.0", "kMatrix.pole.1", "kMatrix.prod.0", "kMatrix.prod.1"], [PIP, PIM])
+    r = rng.random()
+    if r < 0.3:
+        ds = [vk(), vp()]
+        if rng.random() < 0.5:
+            ds.reverse()
+        return ["D0", rng.choice([None, "S", "P", "D"]), None, ds]
+    if r < 0.4:
+        return ["D0", None, None, rng.choice([[vk(), sp()], [vp(), sk()]])]
+    if r < 0.5:
+        ds = [sk(), sp()]
+        if rng.random() < 0.5:
+            ds.reverse()
+        return ["D0", None, None, ds]
+    kind = rng.choice(["A", "A", "T", "P", "Api"])
+    gsp = rng.choice([None, "GSpline.EFF"])
+    if kind == "Api":
+        inner_v = rng.random() < 0.6
+        sub = [rng.choice(A_PI), rng.choice([None, "D"]) if inner_v else None, gsp, [vp() if inner_v else sp(), PIP]]
+        return ["D0", None, None, [sub, K]]
+    if kind == "T":
+        inner, tag = (rng.choice([[vk(), PIM], [vp(), K]])), None
+    else:
+        inner_v = rng.random() < 0.6
+        inner = rng.choice([[vk(), PIM], [vp(), K]]) if inner_v else rng.choice([[sk(), PIM], [sp(), K]])
+        tag = rng.choice([None, "D"]) if (inner_v and kind == "A") else None
+    sub = [rng.choice({"A": A_K, "T": T_K, "P": P_K}[kind]), tag, gsp, inner]
+    return ["D0", None, None, [sub, PIP]]
+
+
+def rand_convertible(rng):
+    """an option file whose amplitudes use supported spin structures, with every parameter / constant its lineshapes need (GSpline:
+    Min/Max/N + the Gamma family, in shuffled order, often with 10 or more points; kMatrix: IS_p*, f_scatt*, sA_0, sA, s0_prod,
+    s0_scatt), couplings fixed or free, resonances written bare with one to three separate lines"""
+    bare = []
+    body = [["cplx", supported_top(rng, bare), cplx(rng), cplx(rng)] for _ in range(rng.randint(1, 5))]
+    for n in dict.fromkeys(bare):
+        for _ in range(rng.randint(1, 3)):
+            body.append(["cplx", sub_line(rng, n), cplx(rng), cplx(rng)])
+    rng.shuffle(body)
+    opt = [["event", ["D0"] + FINAL]] + body
+    if rng.random() < 0.3:
+        opt.insert(rng.randint(1, len(opt)), ["fcs", "1"])
+    gs, km = [], False
+
+    def walk(t):
+        nonlocal km
+        n, sp, ls, sub = t
+        if ls == "GSpline.EFF" and n not in gs:
+            gs.append(n)
+        if ls and ls.startswith("kMatrix"):
+            km = True
+        for x in sub:
+            walk(x)
+    for l in opt:
+        if l[0] == "cplx":
+            walk(l[1])
+    extra = []
+    for n in gs:
+        npts = rng.choice([3, 7, 11, 12, 23])
+        extra += [["const", f"{n}::Spline::Min", "0.18412"], ["const", f"{n}::Spline::Max", "1.9"], ["const", f"{n}::Spline::N", str(npts)]]
+        extra += [["var", f"{n}::Spline::Gamma::{i}", rng.choice(["0", "2"]), rng.choice(NUMS), rng.choice(["0", "0.01"])] for i in range(npts)]
+    if km:
+        for i in range(1, 6):
+            for ch in ("pipi", "KK", "4pi", "EtaEta", "EtapEta", "mass"):
+                extra.append(["var", f"IS_p{i}_{ch}", "2", rng.choice(NUMS), "0"])
+        extra += [["var", f"f_scatt{i}", "2", rng.choice(NUMS), "0"] for i in range(5)]
+        extra += [["var", k, rng.choice(["0", "2"]), rng.choice(NUMS), rng.choice(["0", "0.01"])] for k in ("sA_0", "sA", "s0_prod", "s0_scatt")]
+    for _ in range(rng.randint(0, 3)):
+        extra.append(["var", rng.choice(["D0_radius", "myPar::x", "other_par"]), rng.choice(["0", "2"]), rng.choice(NUMS), rng.choice(["0", "0.01"])])
+    rng.shuffle(extra)
+    return opt + extra
 
 
 def render_tree(t):
